@@ -10,7 +10,8 @@ EXTENDS LevelSeq, Json
 CONSTANTS Shapes,       \* set of order templates [kind, vis, hid, thr, amt, auto, ts, side]
           MatchQs, AmendQs, MaxLen, Fuel,
           WithUpdates,  \* TRUE: also UpdatePrice / UpdatePriceAndQuantity / Replace
-          EmitReplays
+          EmitReplays,
+          EmitEdges     \* TRUE: print the history of EVERY transition TLC generates (edge cover for replay)
 
 VARIABLES sh, sg, chk, lastkf, hung, hist
 vars == <<sh, sg, chk, lastkf, hung, hist>>
@@ -43,6 +44,9 @@ Force(g) == [g EXCEPT !.supplied = TLCEval(@), !.executed = TLCEval(@), !.back =
 Init == /\ sh = EmptyShared /\ sg = SeqGhostInit(EmptyMap)
         /\ chk = {} /\ lastkf = {} /\ hung = FALSE /\ hist = <<>>
 
+ObsOf(x) == [vis |-> x.vis, hid |-> x.hid, cnt |-> x.cnt, orders |-> MapSeq(x.qmap),
+            tickets |-> x.tickets, st |-> x.st, gen |-> x.gen]
+
 Next ==
   /\ ~hung /\ Len(hist) < MaxLen
   /\ \E c \in CallsFrom(sh) :
@@ -51,6 +55,7 @@ Next ==
            v   == CallVerdict(sh, c, r, run.sh, sg, [ret |-> r, sh |-> run.sh, pre |-> sh])
        IN /\ sh' = run.sh /\ sg' = Force(v.sg) /\ chk' = v.bad /\ lastkf' = v.kf /\ hung' = run.hang
           /\ hist' = Append(hist, c)
+          /\ (EmitEdges => PrintT(<<"EDGE", ToJson([calls |-> Append(hist, c), final |-> ObsOf(run.sh)])>>))
 
 Spec == Init /\ [][Next]_vars
 
